@@ -95,7 +95,7 @@ LeafSubsBefore(tr, su, id) == Cardinality({ <<i, j>> \in (1..(su - 1)) \X (1..8)
 \* "ok" | "bad" | "na" (outside the domain of the definition: reactions, ill-formed input, subjects, ambiguous instance numbers, divergence)
 RefVerdict(tr, root, reacts) ==
   \* a panic inside the library on well-formed input within the domain of the definition is not "the function the definition gives"
-  IF RefDomain(root) /\ TermWF(root) /\ ~reacts /\ WFInput(Arr(tr)) /\ (\E i \in 1..Len(tr) : tr[i].fin = "panic") THEN "bad"
+  IF RefDomain(root) /\ TermWF(root) /\ ~reacts /\ WFInput(Arr(tr)) /\ (\E i \in 1..Len(tr) : tr[i].fin \in {"panic", "stuck"}) THEN "bad"      \* (nor is a call that never returns)
   ELSE IF ~(RefDomain(root) /\ TermWF(root) /\ AllFinOk(tr) /\ ~reacts /\ WFInput(Arr(tr))) THEN "na"
   \* inner probe-2 instances are numbered in creation order across ALL subscribers: "k-th outer item = instance k" is the real
   \* numbering only while one sink subscribes (or nothing is ever sent to an inner probe)
